@@ -3,8 +3,11 @@
 (* Trace validation for self-calibration (C02).  One episode = one row of  *)
 (* the configuration table of SelfCal executed against the real library:   *)
 (*                                                                         *)
-(*   Reset, Cfg, then one or more solves (the main one; optionally the     *)
-(*   tolerance ladder on the same data), each                              *)
+(*   Reset, Cfg, then one or more solves (the main one; optionally "re" /  *)
+(*   "rc": the same parameter handles measured and solved again on another *)
+(*   frequency grid with the same / another number of points, second       *)
+(*   vnacal_new_t on the same vnacal_t; optionally the tolerance ladder on *)
+(*   the same data), each                                                  *)
 (*       Setup, {LMIter* LMExit per frequency}, Solve, [Params, Apply]     *)
 (*   then [Ladder], End.                                                   *)
 (*                                                                         *)
@@ -44,7 +47,7 @@ tvars == <<iter, best, mult, havebest, done, outcome, ts, l>>
 
 NoCfg == [ty |-> "none"]
 
-TS0 == [cfg |-> NoCfg, nf |-> 0, ph |-> "idle", lmn |-> 0, lmx |-> 0,
+TS0 == [cfg |-> NoCfg, nf |-> 0, nf0 |-> 0, ph |-> "idle", lmn |-> 0, lmx |-> 0,
         okx |-> 0, last |-> "none", curfi |-> -1, tag |-> "none"]
 
 LMReset ==
@@ -70,7 +73,8 @@ TCfg ==
     /\ Explain(IsConfig(CfgOf(Ev)), <<l, "Cfg", "config", "IsConfig">>)
     /\ Explain(Ev.nf \in 1..3 /\ Ev.fm \in {"m", "ab"},
                <<l, "Cfg", "free", "nf in 1..3, fm in m|ab">>)
-    /\ ts' = [ts EXCEPT !.cfg = CfgOf(Ev), !.nf = Ev.nf, !.ph = "cfg"]
+    /\ ts' = [ts EXCEPT !.cfg = CfgOf(Ev), !.nf = Ev.nf, !.nf0 = Ev.nf,
+                        !.ph = "cfg"]
     /\ UNCHANGED lmvars
 
 (* every parameter creation and every vnacal_new_add_* of a table          *)
@@ -81,7 +85,13 @@ TSetup ==
     /\ Explain(Ev.ok = 1 /\ Ev.adds = Ev.nstd /\ Ev.err = "OK",
                <<l, "Setup", "ok", 1>>)
     /\ Explain(Ev.cbn = 0, <<l, "Setup", "cbn", 0>>)
+    (* the frequency grid of this solve: the configuration's own grid, or  *)
+    (* for the re-solves "re" / "rc" another one (same / other count)      *)
+    /\ Explain(Ev.nf \in 1..4 /\ (Ev.tag # "rc" => Ev.nf = ts.nf0) /\
+               (Ev.tag = "rc" => Ev.nf # ts.nf0),
+               <<l, "Setup", "nf", ts.nf0>>)
     /\ ts' = [ts EXCEPT !.ph = "setup", !.lmn = 0, !.lmx = 0, !.okx = 0,
+                        !.nf = Ev.nf,
                         !.last = "none", !.curfi = -1, !.tag = Ev.tag]
     /\ LMReset
 
@@ -153,7 +163,8 @@ TLMExit ==
     /\ LMReset
 
 TolOfTag(tag, which) ==
-    CASE tag = "main"  -> IF which = "pt" THEN ts.cfg.pt ELSE ts.cfg.et
+    CASE tag \in {"main", "re", "rc"} ->
+                          IF which = "pt" THEN ts.cfg.pt ELSE ts.cfg.et
       [] tag = "lad4"  -> 4
       [] tag = "lad6"  -> 6
       [] tag = "lad8"  -> 8
